@@ -86,7 +86,7 @@ Fixpoint mk_ctab (l : list (cid * pclass)) : ctab :=
 Definition defined (l : list (cid * pclass)) : list (cid * bool) :=
   map (fun cp => (fst cp, match describe (snd cp) with Some _ => true | None => false end)) l.
 
-Definition FUEL : nat := 40.
+Definition FUEL : nat := 1000.    (* nesting depth and until-loop bound of the correspondence runs: consumed by need *)
 Definition no_delims : dstate := fun _ _ => [].
 (* the delimiter each regex-delimited field object remembers after a parse: the last one logged *)
 Fixpoint delims_of (t : trace) (d : dstate) : dstate :=
